@@ -2,7 +2,7 @@
    SGR semantics).  Only statements, each closed by [exact]. *)
 From Coq Require Import NArith List Bool.
 From AV Require Import Generated.Table Spec.Vt Spec.Sgr Model.Base Model.Parser Model.Wincon
-  Proofs.TableFacts Proofs.WinconSgr Proofs.WinconRuns Proofs.WinconSpecRuns.
+  Proofs.TableFacts Proofs.WinconSgr Proofs.WinconRuns Proofs.WinconSpecRuns Generated.WinconFn Proofs.WinconGen.
 Import ListNotations.
 Local Open Scope N_scope.
 
@@ -99,3 +99,42 @@ Theorem c07_example_runs :
   = [(style_default, [97]); (mkStyle (Some (CAnsi 1)) None None 1, [98]);
      (mkStyle (Some (CIdx 9)) None None 1, [9; 99]); (style_default, [100])].
 Proof. exact example_runs. Qed.
+
+(* ---- the tie by translation --------------------------------------------------------- *)
+
+(* Generated/WinconFn.v is written on every run by tools/gen_fn_wincon.py (tools/rs2v) from the
+   Rust sources of WinconCapture::{reset, print, execute, csi_dispatch}, to_ansi_color,
+   next_bytes (crates/anstream/src/adapter/wincon.rs) and AnsiColor::bright
+   (crates/anstyle/src/color.rs).  The translated csi_dispatch -- nested loops, decoder state,
+   every `break` -- computes what the hand model's capture_event computes on the event, panics
+   included; its style component is sgr_dispatch, the subject of the theorems above. *)
+Theorem c07_translated_csi_dispatch_is_model :
+  forall cap ps ints ign action,
+  g_cap_csi_dispatch cap ps ints ign action = capture_event cap (ECsi ps ints ign action).
+Proof. exact g_cap_csi_dispatch_eq. Qed.
+
+Theorem c07_translated_csi_dispatch_style :
+  forall cap ps,
+  option_map c_style (g_cap_csi_dispatch cap ps [] false 109) = sgr_dispatch (c_style cap) ps.
+Proof. exact translated_csi_dispatch_style. Qed.
+
+(* every event of the parser reaches the translated callback (the Perform plumbing is
+   hand-written from the token-pinned trait) *)
+Theorem c07_translated_perform_is_model :
+  forall c e, g_perform c e = capture_event c e.
+Proof. exact g_perform_eq. Qed.
+
+(* the translated next_bytes (over the translated parser, Generated/ParserFn.g_advance), iterated
+   as WinconBytesIter does, is the hand model's extract_next *)
+Theorem c07_translated_extract_next_is_model :
+  forall bs p c, g_extract_next bs p c = extract_next bs p c.
+Proof. exact translated_extract_next_is_model. Qed.
+
+(* hence c07_runs_are_spec is a statement about the translated code *)
+Theorem c07_translated_runs_are_spec :
+  forall input,
+  Forall (fun b => b < 256) input -> sgr_events_ok style_default (spec_events input) ->
+  exists its p c,
+    g_extract_next input parser_new capture_default = Some (its, p, c) /\
+    merge_runs its = spec_runs input.
+Proof. exact translated_runs_are_spec. Qed.
